@@ -454,10 +454,22 @@ fn check_tx_validity<C: ContentAddrStore>(
 }
 
 fn proof_is_tip910(proof: Proof, puzzle: &HashVal, difficulty: u32) -> Result<bool, StateError> {
+    // melpow's verifier indexes the proof's nodes directly and panics on a proof that lacks some of them (an empty proof,
+    // a difficulty the proof was not made for, a corrupted node label): such a proof is invalid, it must not stop the node
+    let verifies = |tip910: bool| {
+        std::panic::catch_unwind(std::panic::AssertUnwindSafe(|| {
+            if tip910 {
+                proof.verify(puzzle, difficulty as _, Tip910MelPowHash)
+            } else {
+                proof.verify(puzzle, difficulty as _, LegacyMelPowHash)
+            }
+        }))
+        .unwrap_or(false)
+    };
     // try verifying the proof under the old and the new system
-    if proof.verify(puzzle, difficulty as _, LegacyMelPowHash) {
+    if verifies(false) {
         Ok(false)
-    } else if proof.verify(puzzle, difficulty as _, Tip910MelPowHash) {
+    } else if verifies(true) {
         Ok(true)
     } else {
         Err(StateError::InvalidMelPoW)
